@@ -36,7 +36,11 @@ ALLOWED_RNG = {"torch.bernoulli", "torch.randperm", "torch.randint", "torch.rand
                "torch.cuda.manual_seed"}
 FORBIDDEN_IMPORTS = {"random", "secrets", "uuid"}
 FORBIDDEN_CHAINS = ("np.random", "numpy.random", "torch.Generator", "torch.seed", "torch.initial_seed", "torch.random", "os.urandom", "torch.rand_like",
-                    "torch.randn_like", "torch.normal", "torch.multinomial", "torch.poisson", "torch.rand", "torch.get_rng_state", "torch.set_rng_state")
+                    "torch.randn_like", "torch.normal", "torch.multinomial", "torch.poisson", "torch.rand", "torch.get_rng_state", "torch.set_rng_state",
+                    # process-global settings that change what later draws / kernels return for everyone in the process
+                    "torch.set_default_dtype", "torch.set_default_tensor_type", "torch.set_default_device", "torch.use_deterministic_algorithms",
+                    "torch.set_num_threads", "torch.set_flush_denormal", "torch.set_float32_matmul_precision", "torch.backends", "np.seterr", "numpy.seterr",
+                    "os.environ", "locale.setlocale")
 
 
 def configs(tier):
